@@ -7,6 +7,9 @@ from .runtime_common import RUNTIME, RUNTIME_ASSUMPTIONS
 def run(tier):
     pr = PropertyRun('C04', tier)
     run_contracts_sel(pr, RUNTIME, tier, 'C04')
+    # the include arm of the statement loop is not proved: bounded native stand-in (includes run in the global scope, in order)
+    from .C17 import include_bounded
+    include_bounded(pr, 'C04')
     pr.assumptions += RUNTIME_ASSUMPTIONS + [
         'SCRIPT_FUNCTIONS / EXPRESSION_FUNCTIONS are treated as uninterpreted maps name -> function (their contents are checked by the C03 table lemma)',
     ]
